@@ -365,7 +365,9 @@ def rule_taskmanager(ctx: Ctx) -> None:
     nested = [f for f in rp.module.all_functions if f.qualname.startswith("TaskManager.replace_task.")]
     inner = [(f, c) for f in nested for c in calls(f, "self.register_task")]
     cbs = [c for c in calls(rp) if call_name(c) == "add_done_callback"]
-    ok = not direct and len(inner) == 1 and len(cbs) == 1 and chain(arg(cbs[0], 0)) == inner[0][0].name
+    cbname = inner[0][0].name if inner else None
+    direct_cb = [c for c in calls(rp) if chain(c.func) == cbname]
+    ok = not direct and not direct_cb and len(inner) == 1 and len(cbs) == 1 and chain(arg(cbs[0], 0)) == cbname
     if ok:
         old = resolve(rp, cbs[0].func.value)
         ok = isinstance(old, ast.Call) and chain(old.func) == "self.cancel_pending_task" and norm(arg(old, 0)) == rp.params()[1] \
